@@ -6,7 +6,8 @@
 const char* const H_NAME = "c10_yield";
 const char* const H_PROPERTY = "C10";
 
-#define MAXFB 8
+#define MAXFB 1024
+#define CROWD_STK 32768
 enum { ROLE_SETTER = 0, ROLE_POLLER, ROLE_YIELDER };
 static int nfib, nthreads;
 static volatile int flag[MAXFB];
@@ -19,8 +20,13 @@ static fiber_t* fptr[MAXFB];
 
 static NS long total_sw(void) { return (long)sim_switch_ins_others(NULL); }
 static NS void g_ready(int i) { ready_since[i] = total_sw(); }
+static int crowd;
+static long g_calls;
 static NS void g_running(int i) {
   ready_since[i] = -1;
+  /* crowd programs: the waiting counts only grow while a fiber stays queued, so looking at every fiber on
+   * every 16th switch loses nothing but keeps the oracle linear */
+  if (crowd && (++g_calls & 15)) return;
   /* any number of kernel threads: a fiber sitting in the run queue of kernel thread A is bypassed once for
    * every fiber switch on A (exact: counted from the moment it was pushed into that queue) */
   for (int j = 0; j < nfib; j++)
@@ -71,13 +77,25 @@ static void* fib(void* p) {
 void h_run(void) {
   sim_cfg_t c = sim_config(1, 3, 65, FBIT(F_STALL));
   nthreads = c.threads;
-  nfib = wl_int(2, 6);
+  /* "for any number of ready fibers": one program in sixteen is a crowd of up to 800 fibers (beyond the sizes
+   * of the deque's first arrays and of any batch), a handful of them with drawn roles, the rest yielding */
+  crowd = wl_pct(6);
+  g_calls = 0;
+  nfib = crowd ? wl_int(7, 100) * wl_int(1, 8) : wl_int(2, 6);
   int nflags = wl_int(1, 2);
   int have_setter[2] = {0, 0};
+  const int crowd_k = crowd ? wl_int(1, 3) : 0;
+  const int crowd_polls = crowd && wl_pct(50); /* the crowd polls flag 0 instead of yielding a fixed number of times */
   for (int i = 0; i < nfib; i++) {
-    spec[i].role = wl_pick(3);
-    spec[i].k = wl_int(0, 6);
-    spec[i].flag_idx = wl_pick(nflags);
+    if (i < 6) {
+      spec[i].role = wl_pick(3);
+      spec[i].k = wl_int(0, 6);
+      spec[i].flag_idx = wl_pick(nflags);
+    } else {
+      spec[i].role = crowd_polls ? ROLE_POLLER : ROLE_YIELDER;
+      spec[i].k = crowd_k;
+      spec[i].flag_idx = 0;
+    }
     ready_since[i] = -1;
     if (spec[i].role == ROLE_SETTER) have_setter[spec[i].flag_idx] = 1;
   }
@@ -92,19 +110,25 @@ void h_run(void) {
   int k = 0;
   int pollers = 0;
   for (int i = 0; i < nfib; i++) {
-    k += snprintf(d + k, sizeof d - k, "%c%d/f%d ", "SPY"[spec[i].role], spec[i].k, spec[i].flag_idx);
+    if (i < 6) k += snprintf(d + k, sizeof d - k, "%c%d/f%d ", "SPY"[spec[i].role], spec[i].k, spec[i].flag_idx);
     pollers += spec[i].role == ROLE_POLLER;
+  }
+  if (crowd) {
+    snprintf(d + k, sizeof d - k, crowd_polls ? "+ %d x P/f0 " : "+ %d x Y%d ", nfib - 6, crowd_k);
+    sim_probe("crowd", 1);
+    if (nfib > 256) sim_probe("crowd_over_256", 1);
   }
   sim_describe("threads=%d fibers: %s(S=setter after k yields, P=poller, Y=k yields)", c.threads, d);
   if (pollers >= 1 && nfib >= 3) sim_nontrivial();
   sim_fiber_mode();
   fiber_manager_init(c.threads);
-  fiber_t* f[MAXFB];
+  static fiber_t* f[MAXFB];
+  for (int i = 0; i < nfib; i++) fptr[i] = NULL;
   for (int i = 0; i < nfib; i++) {
     g_ready(i);
-    f[i] = fiber_create(STK, fib, (void*)(intptr_t)i);
+    f[i] = fiber_create(crowd ? CROWD_STK : STK, fib, (void*)(intptr_t)i);
     fptr[i] = f[i];
-    if (wl_pct(30)) fiber_yield();
+    if (i < 6 && wl_pct(30)) fiber_yield();
   }
   for (int i = 0; i < nfib; i++) fiber_join(f[i], NULL);
   h_fiber_end();
